@@ -56,7 +56,7 @@ COSIM_RULE = ("lock-step co-simulation: real *Raft nodes (real raft.go, real fil
               "election timer, heartbeat, submit, snapshot, crash, crash after k storage writes, restart) the complete observable "
               "state of every node, every in-flight RPC with request and response, every resolved future and every FSM apply stream "
               "is compared with the extracted Coq model; monitors for the property run on the implementation's observations; "
-              "corpus witnesses (D1, D2) run first; families normal/lossy/delay/crash/snapshot; clusters of 1-5 voters. "
+              "corpus witnesses (D1, D2, D4, D13, R1) run first; families normal/lossy/delay/crash/snapshot/timed/bigsnap (snapshot payloads of 1-3 chunks); clusters of 1-5 voters. "
               "evaluations = labels executed; distinct_nontrivial = distinct (step, label) pairs sampled from the traces")
 COSIM_ASSUME = ["each lock-held section of raft.go is atomic (mutex discipline: C20, not checked)",
                 "observations are taken when every goroutine of the library is blocked (quiescence read from runtime.Stack)",
@@ -86,17 +86,25 @@ HANDLER_RULE = (" PLUS handler-level differential on the property's bounded doma
                 "distinct_nontrivial counts distinct case lines")
 
 
-def cosim_plan(exclude=(), handlers=None, d3=False):
+GRPC_RULE = (" PLUS grpcsnap: three real nodes over the library's own gRPC transport on the loopback interface; two replicate 20 operations "
+             "and compact; the third starts afterwards and must reach the same applied sequence within 60 s for snapshot payloads of "
+             "84 B, 100 KiB and 5 MiB (above gRPC's default message limit)")
+
+
+def cosim_plan(exclude=(), handlers=None, d3=False, grpc=False):
     def drivers(ctx):
         d = []
+        if grpc:
+            # three real nodes over the library's gRPC transport: a late node needs a snapshot of 84 B, 100 KiB, 5 MiB (defect D14)
+            d.append({"name": "grpcsnap", "cmd": [os.path.join(HB, "grpcsnap")]})
         if d3:
             # the delayed vote-request goroutine schedule (defect D3), replayed on real nodes through the held-election hook
             d.append({"name": "d3witness", "cmd": [os.path.join(HB, "d3witness")]})
         if handlers:
             d += handler_driver(handlers)(ctx)
         return d + cosim_drivers(exclude)(ctx)
-    return {"harness": ["cosim"] + (["handlerdiff"] if handlers else []) + (["d3witness"] if d3 else []), "drivers": drivers,
-            "rule": COSIM_RULE + (HANDLER_RULE if handlers else ""), "assumptions": COSIM_ASSUME,
+    return {"harness": ["cosim"] + (["handlerdiff"] if handlers else []) + (["d3witness"] if d3 else []) + (["grpcsnap"] if grpc else []), "drivers": drivers,
+            "rule": COSIM_RULE + (HANDLER_RULE if handlers else "") + (GRPC_RULE if grpc else ""), "assumptions": COSIM_ASSUME,
             "nontrivial": (lambda l: l.startswith("HSEQ")) if handlers else (lambda l: False)}
 
 
@@ -143,7 +151,7 @@ PLANS = {
     "C01": cosim_plan(_SAFETY_EXCL), "C02": cosim_plan(_SAFETY_EXCL, None, True), "C03": cosim_plan(_SAFETY_EXCL),
     "C04": cosim_plan(_SAFETY_EXCL), "C05": cosim_plan(), "C06": cosim_plan(_SAFETY_EXCL, "ae"), "C07": cosim_plan(_SAFETY_EXCL),
     "C08": cosim_plan(_SAFETY_EXCL, "rv"), "C09": cosim_plan(), "C10": cosim_plan(_SAFETY_EXCL), "C11": cosim_plan(_SAFETY_EXCL, "is"),
-    "C14": cosim_plan(_SAFETY_EXCL), "C15": cosim_plan(), "C16": cosim_plan(), "C17": cosim_plan(),
+    "C14": cosim_plan(_SAFETY_EXCL), "C15": cosim_plan((), None, False, True), "C16": cosim_plan(), "C17": cosim_plan(),
     "C18": {
         "harness": ["apidiff", "cosim"],
         "drivers": lambda ctx: [{"name": "apidiff", "cmd": [os.path.join(HB, "apidiff"), "-seed", str(ctx.seed),
